@@ -677,3 +677,64 @@ impl NodeManage {
             .do_send(NodeManageRequest::ActiveNode(node_id))
     }
 }
+
+/// Verification hooks (compiled only with `--cfg rnacos_verif`): add-only accessors used by the
+/// /verif correspondence harness; nothing here is reachable from the normal build.
+#[cfg(rnacos_verif)]
+impl InnerNodeManage {
+    /// A node manager whose cluster view is `nodes` = (id, addr, valid).
+    /// The nodes are inserted the way `update_nodes` inserts them (without sync senders, so no
+    /// network), then the genuine `update_nodes_index` / `update_process_range` run.  Nodes with
+    /// `valid == false` are starved (`last_active_time = 0`) and marked through the genuine
+    /// `check_node_status`; the others can never time out.  An empty list leaves the manager in
+    /// its state before the first `UpdateNodes`.
+    pub fn verif_new_with_nodes(
+        local_id: u64,
+        nodes: Vec<(u64, Arc<String>, bool)>,
+        naming_actor: Option<Addr<NamingActor>>,
+    ) -> Self {
+        let mut s = Self::new(local_id);
+        s.naming_actor = naming_actor;
+        if nodes.is_empty() {
+            return s;
+        }
+        for (id, addr, valid) in nodes {
+            let node = ClusterInnerNode {
+                id,
+                index: 0,
+                is_local: local_id == id,
+                addr,
+                sync_sender: None,
+                status: NodeStatus::Valid,
+                last_active_time: if valid { u64::MAX } else { 0 },
+                client_set: Default::default(),
+            };
+            s.all_nodes.insert(id, node);
+        }
+        let local_node = s.get_this_node();
+        s.all_nodes.entry(local_id).or_insert(local_node);
+        s.update_nodes_index();
+        s.update_process_range();
+        if s.all_nodes.values().any(|n| !n.is_local) {
+            // `update_nodes`: is_change is set when a non-local node is new
+            s.refresh_process_range();
+        }
+        s.check_node_status();
+        s
+    }
+
+    /// the genuine `get_current_process_range`
+    pub fn verif_get_current_process_range(&self) -> ProcessRange {
+        self.get_current_process_range()
+    }
+
+    /// the range last stored by `update_process_range` (what `QueryOwnerRange` answers first)
+    pub fn verif_current_range(&self) -> ProcessRange {
+        self.current_range.clone()
+    }
+
+    /// the genuine `get_all_nodes`
+    pub fn verif_get_all_nodes(&self) -> Vec<ClusterNode> {
+        self.get_all_nodes()
+    }
+}
